@@ -350,3 +350,14 @@ def run(rep, programs):
     c04.r_stats_exact(rep, prog)
     c05.r_rebuild_order(rep, prog)
     c05.r_init_dispatch(rep, prog)
+
+
+_run_c06 = run
+
+
+def run(rep, programs):  # noqa: F811
+    _run_c06(rep, programs)
+    # allocate-all and free-all both have to (re)write the tree counters: only Init::None may hand `tree_init = None` to Trees::new,
+    # or the counters keep what a reused buffer held
+    from props import c07
+    c07.r_nowrite_none(rep, programs["core"])
